@@ -544,6 +544,11 @@ func (t *thread) checkHashTypeEncoding(shf sighash.Flag) error {
 		if sigHashType < sighash.All || sigHashType > sighash.Single {
 			return errs.NewError(errs.ErrInvalidSigHashType, "invalid hash type 0x%x", shf)
 		}
+		// A signature without the fork id must not pass when the fork id
+		// is required (the check below is never reached for it).
+		if t.hasFlag(scriptflag.EnableSighashForkID) && !t.hasFlag(scriptflag.VerifyBip143SigHash) {
+			return errs.NewError(errs.ErrIllegalForkID, "fork id sighash not set with flag")
+		}
 		return nil
 	}
 
